@@ -18,7 +18,43 @@ const UINTS: &[UIntType] = &[
     UIntType::U256,
 ];
 
+/// Wide values: hundreds of small elements in one array or list (a printed text of several kB
+/// with hundreds of tokens; resource limits, buffers and quadratic paths only show on these).
+fn gen_type_wide(rng: &mut Prng) -> ResolvedType {
+    // (element type, leaves per element); the total stays below ~700 leaves so that one value
+    // parses in a few milliseconds
+    let (elem, leaves) = match rng.below(6) {
+        0 => (ResolvedType::from(UIntType::U16), 1),
+        1 => (ResolvedType::tuple([ResolvedType::from(UIntType::U8), ResolvedType::option(ResolvedType::from(UIntType::U8))]), 2),
+        2 => (ResolvedType::tuple([ResolvedType::from(UIntType::U4), ResolvedType::boolean()]), 2),
+        3 => (ResolvedType::either(ResolvedType::from(UIntType::U8), ResolvedType::boolean()), 1),
+        4 => (ResolvedType::array(ResolvedType::tuple([ResolvedType::from(UIntType::U4), ResolvedType::boolean()]), 8), 16),
+        _ => (ResolvedType::from(UIntType::U32), 1),
+    };
+    let max_n = (700 / leaves).clamp(20, 320);
+    if rng.coin() {
+        ResolvedType::array(elem, rng.range(max_n / 2, max_n))
+    } else {
+        // a list holds fewer than `bound` elements; gen_value caps the length at 400
+        let bound = (max_n + 1).next_power_of_two().max(4);
+        ResolvedType::list(elem, NonZeroPow2Usize::new(bound).unwrap())
+    }
+}
+
+thread_local! {
+    static WIDE_PERMILLE: std::cell::Cell<u32> = const { std::cell::Cell::new(8) };
+}
+
+/// How often (per mille, per type drawn at depth >= 1) a wide type is produced on this thread.
+/// Maps use a low rate (every map is printed and parsed dozens of times), the sweep a higher one.
+pub fn set_wide_permille(p: u32) {
+    WIDE_PERMILLE.with(|w| w.set(p));
+}
+
 pub fn gen_type(rng: &mut Prng, depth: usize) -> ResolvedType {
+    if depth >= 1 && rng.chance(WIDE_PERMILLE.with(|w| w.get())) {
+        return gen_type_wide(rng);
+    }
     let leaf = depth == 0 || rng.below(3) == 0;
     if leaf {
         return match rng.below(12) {
@@ -264,9 +300,9 @@ pub fn gen_value(rng: &mut Prng, ty: &ResolvedType) -> Value {
     if let Some((elem, bound)) = ty.as_list() {
         let n = match rng.below(4) {
             0 => 0,
-            1 => bound.get() - 1,
+            1 => (bound.get() - 1).min(400),
             2 => 1.min(bound.get() - 1),
-            _ => rng.below(bound.get()),
+            _ => rng.below(bound.get()).min(400),
         };
         let vals: Vec<Value> = (0..n).map(|_| gen_value(rng, elem)).collect();
         return Value::list(vals, elem.clone(), bound);
